@@ -30,11 +30,16 @@ def expand_includes(text, seen=None):
     seen = seen or set()
 
     def rep(m):
-        p = os.path.join(VERIF, m.group(1).strip())
+        parts = m.group(1).split()
+        p = os.path.join(VERIF, parts[0])
         if p in seen:
             return ""
         seen.add(p)
-        return expand_includes(open(p).read(), seen)
+        body = expand_includes(open(p).read(), seen)
+        if len(parts) > 1 and parts[1] == "stubs":
+            # callee contracts only: each //@fn block becomes an external_body stub with the same header
+            return "//@stubs-begin " + parts[0] + "\n" + body + "\n//@stubs-end"
+        return body
     return re.sub(r"^[ \t]*//@include (.+)$", rep, text, flags=re.M)
 
 
@@ -51,6 +56,8 @@ def trusted_scan(text):
         s = ln.split("//")[0]
         for m in TRUST_PAT.finditer(s):
             kind = re.sub(r"[\s(\[#\]]", "", m.group(0))
+            if "/*STUB:" in ln:
+                kind = "contract-stub"
             name = ""
             for j in range(i, min(i + 6, len(lines))):
                 mm = re.search(r"\b(fn|struct|enum|trait|type)\s+(\w+)", lines[j])
@@ -81,6 +88,7 @@ class UnitResult:
         self.extract_log = []
         self.fns = []
         self.items = []
+        self.stubs = []
         self.wall_s = 0.0
         self.smt_ms = 0
         self.path = ""
@@ -122,6 +130,7 @@ def run_unit(name, template, tier="quick", canaries=("head",), rlimit=None, meta
     u.trusted = trusted_scan(comp.text)
     u.fns = comp.fns
     u.items = comp.items
+    u.stubs = comp.stubs
     r = V.run(path, rlimit=rlimit)
     u.cmd = r.cmd
     u.smt_ms = r.smt_ms
